@@ -225,21 +225,35 @@ class Recorder:
         self.emit("end", name=name, verdict="none" if v is None else ("acc" if v else "rej"))
         self.pending_name = None
 
-    def run(self, steps):
+    def leg(self, steps):
+        mc = self.mc
+        for step in mc.irun(steps):
+            if hasattr(step, "__next__"):
+                for name in step:
+                    self.finish_trial()
+                    self.P.refresh_moves()
+                    _Rec.log = []
+                    self.called = False
+                    self.pending_name = name
+                    if self.on_yield:
+                        self.on_yield(str(name))
+                    self.emit("yield", name=str(name))
+                self.finish_trial()
+
+    def run(self, steps, edit=None, steps2=0, reset_energy=True):
+        """edit: between two run calls the user changes the atoms by hand (a callable acting on the simulation), declares
+        the remembered energy void and lets the simulation re-validate; recorded as an "edit" event"""
         mc = self.mc
         try:
-            for step in mc.irun(steps):
-                if hasattr(step, "__next__"):
-                    for name in step:
-                        self.finish_trial()
-                        self.P.refresh_moves()
-                        _Rec.log = []
-                        self.called = False
-                        self.pending_name = name
-                        if self.on_yield:
-                            self.on_yield(str(name))
-                        self.emit("yield", name=str(name))
-                    self.finish_trial()
+            self.leg(steps)
+            if edit is not None:
+                edit(mc)
+                if reset_energy:
+                    mc.context.last_potential_energy = np.nan  # what was remembered belongs to the configuration before the edit
+                    mc.validate_simulation()
+                self.pending_name = None
+                self.emit("edit", name="")
+                self.leg(steps2)
         except Exception as ex:  # noqa: BLE001
             where = "evaluate" if self.raised else ("move" if self.pending_name and not self.called else "end")
             ev = {"a": "raise", "name": str(self.pending_name or ""), "res": False, "verdict": "none", "subs": [], "where": where,
